@@ -116,6 +116,12 @@ CHAINS = [
     [["Scale"], ["VSpline", 3, [-2.0, 2.0]], ["Affine"]],
     [["LeakyTanh", 3.0], ["VSpline", 3, [-1.0, 1.0]], ["InvLeakyTanh", 3.0], ["TriAffine"]],
     [["Affine"], ["InvVSpline", 3, [0.5, 2.0]]],
+    [["Affine"], ["SoftPlus"], ["Affine"]],
+    [["Affine"], ["Exp"], ["Affine"]],
+    [["Affine"], ["Tanh"], ["Affine"]],
+    [["Affine"], ["LeakyTanh", 3.0], ["Affine"]],
+    [["Affine"], ["InvSoftPlus"], ["Affine"]],
+    [["Affine"], ["InvExp"], ["Affine"]],
     [["LeakyTanh", 3.0], ["AffineId"]],
     [["LeakyTanh", 1.0], ["AffineId"], ["Flip"]],
     [["InvLeakyTanh", 3.0], ["AffineId"]],
@@ -269,6 +275,8 @@ def _bucket(prop, tier, seed, idx):
     b = {"engine": "B", "prop": prop, "model": spec, "freeze": freeze, "loop": loop, "loss": loss}
     if prop == "C12":
         b["freeze_keep_some"] = r.random() < 0.65
+        if freeze and r.random() < 0.15:
+            b["post_ops"] = [r.choice(["frozen_leaf_float64", "frozen_leaf_bf16"])]
         if spec["kind"] in ("nested_chain", "chain") and r.random() < 0.85:
             b["post_ops"] = [r.choice(["merge_chains", "merge_chains", "merge_chains", "merge_transforms"])]
             if b["post_ops"] == ["merge_transforms"]:
@@ -355,6 +363,8 @@ def _relevant_symbols(spec):
         rel += SYM_SPLINE
     if any("Tanh" in i for i in items) or spec["kind"] == "scan_vspline":
         rel += SYM_TANH
+    if any(("SoftPlus" in i) or ("Exp" in i) for i in items):
+        rel += ["big", "huge", "-big", "-huge", "0", "tiny", "big", "huge"]
     return rel
 
 
